@@ -24,7 +24,7 @@ RULE = ('directed corpus (boundary texts, undecodable bytes, empty input, every 
         '3 error policies; byte strings = valid encodings, UTF-8 of the same text, truncated, corrupted, random. '
         'non-trivial = non-ASCII content or a BOM codec or undecodable bytes or a non-text value or a slug input '
         'that is not already a slug; distinct by (kind, input, encoding spellings, policy, configuration)')
-REQUIRED_CLAUSES = ['decode-str-unchanged', 'decode-bytes-primary', 'decode-bytes-fallback-utf8',
+REQUIRED_CLAUSES = ['documented-keyword-call', 'decode-str-unchanged', 'decode-bytes-primary', 'decode-bytes-fallback-utf8',
                     'round-trip', 'transcode-differ', 'transcode-agree-untouched', 'transcode-alias',
                     'to_utf8-str', 'to_utf8-bytes-identity', 'typeerror-safe_decode',
                     'typeerror-safe_encode', 'typeerror-to_utf8', 'typeerror-to_slug',
@@ -140,6 +140,8 @@ def only_unicode_error(ctx, clause, case, exc, detail):
 # ---------------------------------------------------------------- evaluators
 def eval_text(ctx, case):
     from oslo_utils import encodeutils as eu
+    from vlib import callstyle
+    eu = callstyle.proxy(eu)
     text, enc, errors = case['text'], case['enc'], case['errors']
     canon = canon_of(enc)
     ctx.case(('text', text, enc, errors),
@@ -203,6 +205,8 @@ def check_decode(ctx, case, clause_prefix, data, enc, errors, got, exc):
 
 def eval_decode(ctx, case):
     from oslo_utils import encodeutils as eu
+    from vlib import callstyle
+    eu = callstyle.proxy(eu)
     data, enc, errors = case['data'], case['enc'], case['errors']
     ctx.case(('decode', data, enc, errors), not data.isascii() or canon_of(enc) in BOM_CODECS)
     got, exc = call(eu.safe_decode, data, incoming=enc, errors=errors)
@@ -258,6 +262,8 @@ def check_transcode(ctx, case, data, a, b, errors, got, exc, prefix='transcode')
 
 def eval_transcode(ctx, case):
     from oslo_utils import encodeutils as eu
+    from vlib import callstyle
+    eu = callstyle.proxy(eu)
     data, a, b, errors = case['data'], case['incoming'], case['encoding'], case['errors']
     ctx.case(('transcode', data, a, b, errors), bool(data) and (
         not data.isascii() or canon_of(a) in BOM_CODECS or canon_of(b) in BOM_CODECS))
@@ -267,6 +273,8 @@ def eval_transcode(ctx, case):
 
 def eval_typeerr(ctx, case):
     from oslo_utils import encodeutils as eu, strutils
+    from vlib import callstyle
+    eu, strutils = callstyle.proxy(eu), callstyle.proxy(strutils)
     fn, spec, kwargs = case['fn'], case['spec'], case['kwargs']
     f = {'safe_decode': eu.safe_decode, 'safe_encode': eu.safe_encode, 'to_utf8': eu.to_utf8,
          'to_slug': strutils.to_slug}[fn]
@@ -295,6 +303,8 @@ def make_stdin(spec):
 
 def eval_stdin(ctx, case):
     from oslo_utils import encodeutils as eu
+    from vlib import callstyle
+    eu = callstyle.proxy(eu)
     spec, op, data, errors = case['stdin'], case['op'], case['data'], case['errors']
     effective = (spec.get('encoding') if spec['mode'] == 'attr' else None) or sys.getdefaultencoding()
     ctx.case(('stdin', sorted(spec.items(), key=repr), op, data, case.get('encoding'), errors,
@@ -327,6 +337,8 @@ def eval_stdin(ctx, case):
 
 def eval_slug(ctx, case):
     from oslo_utils import strutils
+    from vlib import callstyle
+    strutils = callstyle.proxy(strutils)
     value, incoming, errors = case['value'], case.get('incoming'), case.get('errors', 'strict')
     kwargs = {}
     if incoming is not None:
